@@ -128,8 +128,14 @@ inline int run_all(CaseFn fn, unsigned timeout_s = 60) {
             _exit(0);
         }
         int st = 0;
-        while (waitpid(pid, &st, 0) < 0) { }
-        if (WIFSIGNALED(st)) {
+        while (waitpid(pid, &st, WUNTRACED) < 0) { }
+        if (WIFSTOPPED(st)) {
+            // a stopped case child would never be reaped (its alarm cannot fire while stopped)
+            kill(pid, SIGKILL);
+            while (waitpid(pid, &st, 0) < 0) { }
+            printf("crash stopped\n");
+        }
+        else if (WIFSIGNALED(st)) {
             if (WTERMSIG(st) == SIGALRM) printf("crash timeout\n");
             else printf("crash signal %d\n", WTERMSIG(st));
         }
